@@ -2,6 +2,7 @@ package main
 
 import (
 	"encoding/hex"
+	"os"
 	"fmt"
 	"strconv"
 	"strings"
@@ -71,6 +72,9 @@ func showBytes(b []byte) string {
 }
 
 func compact(s string) string {
+	if os.Getenv("VERIF_NOCOMPACT") != "" {
+		return s
+	}
 	if len(s) <= 400 {
 		return s
 	}
